@@ -257,6 +257,16 @@ class DFrame(Stub):
             return DFrame(self.w, Rows((), m.isin), self.cols, self.sorted, self.joined, self)
         return DFrame(self.w, self.rows.add("keep " + m.token()), self.cols, self.sorted, self.joined, self)
 
+    def isna(self):
+        return _DFrameNa(self, False)
+
+    isnull = isna
+
+    def notna(self):
+        return _DFrameNa(self, True)
+
+    notnull = notna
+
     # ---- new frames
     def copy(self, *a, **k):
         return DFrame(self.w, self.rows, self.cols, self.sorted, self.joined, self)
@@ -362,6 +372,27 @@ class DFrame(Stub):
         if self.joined is not None:
             d["joined"] = {"how": self.joined[1], "what": self.joined[0].desc() if hasattr(self.joined[0], "desc") else type(self.joined[0]).__name__}
         return d
+
+
+class _DFrameNa(Stub):
+    """frame.isna() / frame.notna(): only the row-wise reductions are modelled."""
+
+    def __init__(self, frame: DFrame, neg: bool):
+        self.frame, self.neg = frame, neg
+
+    def _reduce(self, how: str, axis):
+        if axis not in (1, "columns"):
+            raise Unsupported("frame.isna().any()/all() other than row-wise (axis=1)")
+        # isna().any(1) = not notna().all(1) = rows dropna(how='any') drops ; isna().all(1) = not notna().any(1) = rows dropna(how='all') drops
+        if not self.neg:
+            return DMask(f"isna[{'any' if how == 'any' else 'all'}:all-columns]", self.frame.rows)
+        return DMask(f"isna[{'all' if how == 'any' else 'any'}:all-columns]", self.frame.rows, neg=True)
+
+    def any(self, axis=0, **k):
+        return self._reduce("any", axis)
+
+    def all(self, axis=0, **k):
+        return self._reduce("all", axis)
 
 
 class Segment(Stub):
@@ -636,7 +667,8 @@ def judge_predict(o: Dict[str, Any]) -> List[Tuple[str, str]]:
         return bad + [("rows", f"exactly one of the two concatenated frames must carry the joined predictions; found {len(ks)} {ctx}")]
     K, D = ks[0], ds[0]
     empty = any(t.startswith("empty[") and v for t, v in o["decisions"])
-    if not (D["rows"] == f"(ALL - {K['rows']})" or (empty and D["rows"] == "ALL")):
+    same_by_na = K["rows"] == "ALL|keep notna[any:all-columns]" and D["rows"] == "ALL|keep isna[any:all-columns]"   # the rows dropna() drops, spelled as a mask
+    if not (D["rows"] == f"(ALL - {K['rows']})" or (empty and D["rows"] == "ALL") or same_by_na):
         bad.append(("rows", f"the re-appended rows `{D['rows']}` are not the complement of the predicted rows `{K['rows']}`: timestamps are dropped or duplicated {ctx}"))
     j = K["joined"]
     if j["how"] != "left":
